@@ -120,6 +120,14 @@ struct EnvState {
   std::vector<std::string> reads;
 };
 extern EnvState env;
+// Simulated wall clock.  cctz reads no clock at all today; the seam exists so that a change which makes it read one
+// is (a) still simulated deterministically and (b) visible to the oracles, which give different loads / steps different "now"s.
+struct ClockState {
+  bool active = false;
+  int64_t now = 1790000000;   // seconds since the epoch handed to every clock_gettime/gettimeofday/time call in the process while active (2026-09-21)
+  int64_t reads = 0;
+};
+extern ClockState clk;
 void fs_reset();
 // Path resolution of the simulated file system (collapses '//' and '/./', honours a trailing '/').
 const FsNode* fs_resolve(const std::string& path, int* err);
